@@ -112,8 +112,9 @@ class Context:
             if b.kind == 'Promoted':
                 continue
             rt = b.locals[0]['s']
-            if rt.startswith('std::collections::HashMap<' + prayer + ', std::result::Result<f64, ()>'):
-                if any('HashMap' in (callee_name(t) or '') and callee_name(t).endswith('::insert') for _, t in b.calls()):
+            if rt.startswith('std::collections::HashMap<' + prayer + ', std::result::Result<f64, ()>') and b.kind in ('Fn', 'AssocFn'):
+                takes_map = any(b.locals[i]['s'].startswith('std::collections::HashMap<' + prayer) for i in range(1, b.arg_count + 1))
+                if not takes_map:
                     out.append(p)
         if len(out) != 1:
             raise AnchorLost('conventional-hours builder', f'{len(out)} candidates: {out}')
